@@ -550,6 +550,9 @@ fn gen_history(rng: &mut Rng) -> History {
         if rng.chance(2, 5) && spec < SpecId::CANCUN {
             return gen_recreate_cycles(rng, spec);
         }
+        if rng.chance(1, 5) && spec < SpecId::CANCUN {
+            return gen_silent_recreate(rng, spec);
+        }
         if rng.chance(1, 4) {
             return gen_slot_pingpong(rng, spec);
         }
